@@ -19,8 +19,10 @@ MANIFEST = {
             "and aliasing IR; Lean proves ONCE that the executable abstract interpreter is sound for a concrete heap semantics "
             "(views share buffers, arguments may alias each other, any branch, any number of loop iterations, view-or-copy "
             "nondeterminism): pure_sound / writes_sound; the per-function obligation pureCheck = true is then discharged by kernel "
-            "evaluation for all regenerated terms (all_generated_pure), so an added in-place write or global-RNG use in ANY function "
-            "breaks a proof obligation on the next run. Dynamic side: every public function is wrapped in-process, the repository's "
+            "evaluation for all regenerated terms (all_generated_pure), so an in-place write or global-RNG use that the translator "
+            "recognises (its whitelists of views / in-place operations / RNG uses, regression-tested on every run against a corpus of "
+            "25 impure and 7 pure idioms: corpus_impure_flagged, corpus_pure_accepted) breaks a proof obligation on the next run in "
+            "ANY function. Dynamic side: every public function is wrapped in-process, the repository's "
             "own test-suite plus a call table with C/F-ordered and strided sentinel arrays is replayed; argument values, shape, dtype "
             "and strides are compared before/after, every top-level call is repeated on equal arguments, NumPy's global RNG state is "
             "compared; observed mutations must be a subset of the statically predicted ones.",
@@ -31,7 +33,8 @@ MANIFEST = {
     "technique": "Lean 4 soundness proof of an abstract interpreter + kernel-evaluated per-function obligations on terms regenerated "
                  "from source + instrumented dynamic replay",
 }
-REQUIRED = ["gam_init", "writes_sound", "pure_sound", "all_generated_pure", "known_impure_flagged"]
+REQUIRED = ["gam_init", "writes_sound", "pure_sound", "all_generated_pure", "known_impure_flagged", "corpus_present",
+            "corpus_impure_flagged", "corpus_pure_accepted", "corpus_size"]
 
 _tls = threading.local()
 
@@ -175,7 +178,7 @@ def instrument(rec):
                 continue
             if inspect.isclass(obj) and obj.__module__ == mname:
                 for an, av in list(vars(obj).items()):
-                    if inspect.isfunction(av) and (not an.startswith("_") or an == "__init__"):
+                    if inspect.isfunction(av) and (not an.startswith("_") or an in ("__init__", "__repr__")):
                         q = "%s.%s.%s" % (mname, name, an)
                         setattr(obj, an, rec.wrap(q, av, True))
             elif callable(obj) and getattr(obj, "__module__", None) == mname and not inspect.isclass(obj):
@@ -262,6 +265,25 @@ def call_table(rng):
           ("aotools.wfs.wfslib.make_subaps_2d", [nprng.normal(size=(3, 2, 5)), numpy.array([[1, 0, 1], [1, 1, 0], [0, 1, 0]])], {}),
           ("aotools.astronomy._astronomy.photons_per_band", [5., (img() > 10).astype(float), 0.1, 0.01], {}),
           ("aotools.functions._functions.gaussian2d", [(8, 8), (2., 3.)], {}),
+          ("aotools.functions.karhunenLoeve.stf_vonKarman_yao", [img() / 10., 3.], {}),
+          ("aotools.functions.karhunenLoeve.stf_kolmogorov", [img() / 10.], {}),
+          # separations containing exact zeros (r >= 0 is the domain; the zero-separation branch is a different code path)
+          ("aotools.turbulence.slopecovariance.structure_function_vk", [numpy.array([[0., .5, 1.], [2., 0., 3.]]), 0.2, 25.], {}),
+          ("aotools.functions.karhunenLoeve.stf_vonKarman", [numpy.array([0., .5, 1., 0.]), 3.], {}),
+          ("aotools.turbulence.turb.phase_covariance", [numpy.array([0., .5, 1., 0.]), 0.2, 25.], {}),
+          # the same function with other keyword values (a later call must not see anything of an earlier one)
+          ("aotools.functions.zernike.zernikeArray", [7, 12], {"norm": "p2v"}),
+          ("aotools.functions.zernike.zernikeArray", [7, 12], {"norm": "rms"}),
+          ("aotools.functions.zernike.zernikeArray", [7, 12], {}),
+          ("aotools.functions.zernike.zernikeArray", [7, 12], {"rot": 0.6}),
+          ("aotools.functions.zernike.phaseFromZernikes", [numpy.array([0., 1., .5, -2.]), 12], {"norm": "rms"}),
+          ("aotools.functions.zernike.zernike_noll", [5, 12], {}),
+          ("aotools.functions.zernike.zernike_noll", [5, 12], {"rot": 1.1}),
+          ("aotools.turbulence.temporal_ps.get_tps_time_axis", [100., 64], {}),
+          ("aotools.turbulence.slopecovariance.calculate_structure_function", [img(16)], {"step": 2}),
+          ("aotools.turbulence.atmos_conversions.rytov_variance", [img(4) * 1e-15, img(4) * 100., 5e-7], {}),
+          ("aotools.functions.karhunenLoeve.make_kl", [6, 16], {"ri": 0.25, "nr": 8}),
+          ("aotools.functions.karhunenLoeve.make_kl", [10, 16], {"ri": 0.25, "nr": 8}),
           ("aotools.functions.pupil.circle", [3, 8], {})]
     return T
 
@@ -282,8 +304,16 @@ def dynamic(chk, rec, public, quick):
         except SystemExit:
             pass
     chk.count("dynamic:test-suite-calls", sum(rec.calls.values()))
-    # (b) the call table, each array argument in three memory layouts
+    # (b) the call table: each array argument in three memory layouts and three dtypes; results must not depend on the
+    #     layout, nor on what was called before (second pass in shuffled order, third pass after a DIFFERENT call of the same
+    #     function): "calling any function twice with equal arguments, in any order relative to other calls, returns equal results"
     table = call_table(chk.rng)
+    runs = []          # (path, label, args, kw, first result, seeded?)
+
+    def invoke(path, a, kw):
+        with numpy.errstate(all="ignore"), contextlib.redirect_stdout(io.StringIO()):
+            return resolve(path)(*copy.deepcopy(a), **copy.deepcopy(kw))
+
     for path, args, kw in table:
         arr_idx = [i for i, a in enumerate(args) if isinstance(a, numpy.ndarray)]
         variants = [("C", args)]
@@ -300,17 +330,116 @@ def dynamic(chk, rec, public, quick):
                     new[i] = d[lay]
                 if ok:
                     variants.append((lay, new))
+            # other dtypes of the same values (many functions legitimately reject some: exceptions are ignored)
+            for dt in ("float32", "int64"):
+                new = list(args)
+                for i in arr_idx:
+                    if args[i].dtype.kind == "f" and (dt == "float32" or numpy.array_equal(args[i], numpy.round(args[i]))):
+                        new[i] = args[i].astype(dt)
+                if any(new[i].dtype != args[i].dtype for i in arr_idx):
+                    variants.append((dt, new))
+        ref = None
         for lay, a in variants:
             chk.oracle_cases += 1
-            chk.case(("table", path, lay, json.dumps(kw, sort_keys=True)),
+            chk.case(("table", path, lay, json.dumps(kw, sort_keys=True, default=str)),
                      sample={"call": path, "layout": lay, "kwargs": kw} if chk.oracle_cases % 37 == 1 else None)
             chk.count("dynamic:layout:" + lay)
             try:
-                with numpy.errstate(all="ignore"), contextlib.redirect_stdout(io.StringIO()):
-                    resolve(path)(*a, **kw)
+                res = invoke(path, a, kw)
             except Exception as ex:
                 rec.errors.setdefault(path, "%s: %s" % (type(ex).__name__, str(ex)[:100]))
                 chk.count("dynamic:raised:" + type(ex).__name__)
+                continue
+            seeded = kw.get("seed", 0) is not None and kw.get("random_seed", 0) is not None
+            runs.append((path, lay, a, kw, res, seeded))
+            if lay in ("C", "F", "strided") and seeded and path not in rec.global_rng:
+                if ref is None:
+                    ref = (lay, res)
+                elif not _equal(ref[1], res, rtol=1e-9):
+                    chk.fail("layout-dependent:%s" % path, "%s returns different results for equal arguments stored %s-ordered and %s-ordered"
+                             % (path, ref[0], lay), {"function": path, "layouts": [ref[0], lay], "kwargs": kw, "args": _describe(list(enumerate(a)))})
+    # second pass: shuffled order; third pass: each call again right after another call of the same function with other arguments
+    order = list(range(len(runs)))
+    chk.rng.shuffle(order)
+    by_fn = {}
+    for n, r in enumerate(runs):
+        by_fn.setdefault(r[0], []).append(n)
+    for phase, seq in (("shuffled", order), ("after-sibling", [m for n in order for m in ([x for x in by_fn[runs[n][0]] if x != n][:1] + [n])])):
+        for n in seq:
+            path, lay, a, kw, first, seeded = runs[n]
+            if not seeded or path in rec.global_rng:
+                continue
+            try:
+                again = invoke(path, a, kw)
+            except Exception:
+                continue
+            chk.count("dynamic:replayed:" + phase)
+            if not _equal(first, again, rtol=1e-9):
+                chk.fail("history-dependent:%s" % path, "%s returned a different result when called again with equal arguments later in the "
+                         "run (%s pass): its result depends on earlier calls" % (path, phase),
+                         {"function": path, "layout": lay, "kwargs": kw, "phase": phase, "args": _describe(list(enumerate(a)))})
+
+
+def method_table(chk, rec):
+    """methods that are computations on an object (not documented mutators such as add_row): calling them again on the same
+    object, and on a fresh object built from equal arguments, must give equal results — and must leave the constructor's
+    arguments alone"""
+    from aotools.turbulence import slopecovariance as sc
+    from aotools.turbulence import infinitephasescreen as ips
+    rng = chk.rng
+    for it in range(3):
+        nx = 4
+        masks = numpy.array([(numpy.random.default_rng(rng.getrandbits(32)).random((nx, nx)) < 0.8).astype(int) for _ in range(2)])
+        masks[:, 0, 0] = 1
+        # an off-axis NATURAL guide star (altitude 0) next to a laser guide star, layers above the ground
+        ctor = dict(n_wfs=2, pupil_masks=masks, telescope_diameter=4.0, subap_diameters=numpy.array([1.0, 1.0]),
+                    gs_altitudes=numpy.array([0.0, 90e3]), gs_positions=numpy.array([[rng.uniform(5, 30), rng.uniform(-30, -5)], [0.0, 10.0]]),
+                    wfs_wavelengths=numpy.array([5e-7, 6e-7]), n_layers=2, layer_altitudes=numpy.array([0.0, rng.uniform(2000, 9000)]),
+                    layer_r0s=numpy.array([0.2, 0.5]), layer_L0s=numpy.array([25.0, 30.0]), threads=1)
+        keep = copy.deepcopy(ctor)
+        try:
+            obj = sc.CovarianceMatrix(**ctor)
+            first = numpy.array(obj.make_covariance_matrix(), copy=True)
+            r1 = numpy.array(obj.make_tomographic_reconstructor(), copy=True)
+            second = numpy.array(obj.make_covariance_matrix(), copy=True)
+            r2 = numpy.array(obj.make_tomographic_reconstructor(), copy=True)
+            fresh = numpy.array(sc.CovarianceMatrix(**copy.deepcopy(keep)).make_covariance_matrix(), copy=True)
+        except Exception as ex:
+            rec.errors.setdefault("CovarianceMatrix", "%s: %s" % (type(ex).__name__, str(ex)[:100]))
+            continue
+        chk.oracle_cases += 1
+        chk.case(("method", "CovarianceMatrix", it))
+        rep = {"class": "aotools.turbulence.slopecovariance.CovarianceMatrix", "ctor": _describe(list(keep.items()))}
+        if not _equal(first, second, rtol=1e-9) or not _equal(first, fresh, rtol=1e-9):
+            chk.fail("hidden-state:CovarianceMatrix.make_covariance_matrix", "CovarianceMatrix.make_covariance_matrix() returns a different "
+                     "matrix when called a second time on the same object (or on a fresh object built from equal arguments)", rep)
+        if not _equal(r1, r2, rtol=1e-9):
+            chk.fail("hidden-state:CovarianceMatrix.make_tomographic_reconstructor", "make_tomographic_reconstructor() differs between two calls", rep)
+        for k, v in keep.items():
+            if isinstance(v, numpy.ndarray) and _snap(v) != _snap(ctor[k]):
+                chk.fail("mutates:aotools.turbulence.slopecovariance.CovarianceMatrix:%s" % k,
+                         "CovarianceMatrix modified the constructor argument `%s`" % k, rep)
+    for cls, kw in ((ips.PhaseScreenVonKarman, dict(nx_size=8, pixel_scale=0.1, r0=0.2, L0=20., random_seed=3)),
+                    (ips.PhaseScreenKolmogorov, dict(nx_size=9, pixel_scale=0.1, r0=0.2, L0=20., random_seed=3))):
+        try:
+            s1 = cls(**kw)
+            s1.add_row()
+            a = numpy.array(s1.scrn, copy=True)
+            repr(s1); str(s1)
+            b = numpy.array(s1.scrn, copy=True)
+            s2 = cls(**kw)
+            s2.add_row()
+            c = numpy.array(s2.scrn, copy=True)
+        except Exception as ex:
+            rec.errors.setdefault(cls.__name__, "%s: %s" % (type(ex).__name__, str(ex)[:100]))
+            continue
+        chk.oracle_cases += 1
+        chk.case(("method", cls.__name__))
+        if a.tobytes() != b.tobytes():
+            chk.fail("hidden-state:%s.__repr__" % cls.__name__, "reading / printing a %s changed its screen" % cls.__name__, {"class": cls.__name__, "kwargs": kw})
+        if a.tobytes() != c.tobytes():
+            chk.fail("hidden-state:%s" % cls.__name__, "two %s objects built from equal arguments differ after the same operations" % cls.__name__,
+                     {"class": cls.__name__, "kwargs": kw})
 
 
 def run(chk):
@@ -329,6 +458,8 @@ def run(chk):
         from ..translate_formulas import write_if_changed
         write_if_changed(os.path.join(common.LEAN_DIR, "AoVerif/Gen/Effects.lean"), src)
         write_if_changed(os.path.join(common.LEAN_DIR, "AoVerif/Gen/EffectsChecks.lean"), checks)
+        csrc, _ = T2.corpus()
+        write_if_changed(os.path.join(common.LEAN_DIR, "AoVerif/Gen/EffectsCorpus.lean"), csrc)
     except Exception as ex:
         chk.broke("translator", "T2 cannot translate the current source: %r" % (ex,))
         meta = None
@@ -354,6 +485,7 @@ def run(chk):
     rec = Recorder()
     public = instrument(rec)
     dynamic(chk, rec, public, quick)
+    method_table(chk, rec)
     chk.count("dynamic:functions-exercised", len([q for q in rec.calls if rec.calls[q]]))
     never = sorted(q for q in (meta or {}) if q not in rec.calls)
     chk.notes.append("public functions never exercised dynamically: %s" % ", ".join(never[:40]))
